@@ -100,4 +100,6 @@ def run(ck):
             ck.violation("tag at offset 10 is not HMAC(key, bytes[48..EOF)) (hmode %d)" % c.hm, rep)
         elif any(f[10 + len(ref):48]):
             ck.violation("bytes between the tag and offset 48 are not all zero", rep)
+    if ck.tier == "thorough":
+        production_scale(ck)     # 40 MiB and > 4 GiB with the production constants (props/filegen.py)
     return finish_proof(ck, rule="hmac: message lengths 0..139 (thorough 0..399) and around refill multiples x 3 hashes, random 16-byte keys; cmphmac: equal tag, one flipped bit in first/middle/last byte (thorough: every byte), junk after the tag; file level: tag field [10,48) of %d encrypted files vs Python hmac over [48,EOF). distinct = distinct case lines" % len(cases))
